@@ -83,8 +83,8 @@ func (r *ZLibReader) Reset(in io.Reader, dict []byte) error {
 }
 
 // GetZlibReader returns a ZlibReader that is managed by a sync.Pool.
-// Returns a ZlibReader that is reset using a dictionary that is
-// also managed by a sync.Pool.
+// Returns a ZlibReader that is reset to read from r, without a preset
+// dictionary.
 //
 // After use, the ZLibReader should be put back into the sync.Pool
 // by calling PutZlibReader.
@@ -94,9 +94,10 @@ func GetZlibReader(r io.Reader) (*ZLibReader, error) {
 	}
 
 	z := zlibReader.Get().(*ZLibReader)
-	z.dict = GetByteSlice()
 
-	err := z.reader.Reset(r, *z.dict)
+	// Git object and pack data are plain zlib streams: no preset
+	// dictionary, so that a stream asking for one is refused.
+	err := z.reader.Reset(r, nil)
 
 	return z, err
 }
@@ -107,7 +108,10 @@ func PutZlibReader(z *ZLibReader) {
 	if z == nil {
 		return
 	}
-	PutByteSlice(z.dict)
+	if z.dict != nil {
+		PutByteSlice(z.dict)
+		z.dict = nil
+	}
 	zlibReader.Put(z)
 }
 
